@@ -98,8 +98,12 @@ func c16FramesChild() {
 	n := 0
 	for sc.Scan() {
 		w := strings.Fields(sc.Text())
-		if len(w) != 3 {
+		if len(w) != 3 && len(w) != 4 {
 			continue
+		}
+		wantRoutes := -1 // number of routes the stream must produce, when known
+		if len(w) == 4 {
+			wantRoutes, _ = strconv.Atoi(w[3])
 		}
 		max, _ := strconv.Atoi(w[0])
 		expectProbe := w[2] == "1" // the model says the link is open with nothing half-read: the probe must be routed
@@ -131,15 +135,21 @@ func c16FramesChild() {
 				break
 			}
 		}
-		// let the decoding workers finish
+		// let the decoding workers finish: when the number of routes is known, wait for it (unpacking an envelope on a
+		// loaded machine can take longer than the calm period below); otherwise until the count has been calm
 		last := core.Count()
 		for i := 0; i < 200; i++ {
 			time.Sleep(300 * time.Microsecond)
 			c := core.Count()
-			if c == last && i >= 3 {
+			if c == last && i >= 3 && (wantRoutes < 0 || c >= int64(wantRoutes) || i >= 150) {
 				break
 			}
 			last = c
+		}
+		if wantRoutes >= 0 {
+			for i := 0; i < 8000 && core.Count() < int64(wantRoutes); i++ {
+				time.Sleep(250 * time.Microsecond) // up to 2 s more
+			}
 		}
 		routed := core.Count()
 		// probe the victim link: still reading and routing?
@@ -565,7 +575,7 @@ func c16RunChild(c *Ctx, cases []c16FCase, expectProbe []bool) ([]map[string]str
 		if i < len(expectProbe) && expectProbe[i] {
 			ep = 1
 		}
-		fmt.Fprintf(&in, "%d %s %d\n", cs.Max, arg, ep)
+		fmt.Fprintf(&in, "%d %s %d %d\n", cs.Max, arg, ep, cs.Valid)
 	}
 	cmd.Stdin = &in
 	var out, errb bytes.Buffer
